@@ -89,7 +89,14 @@ def instances(tier, rng):
                                 history=len(es) // 2))
         if len(es) <= 5:
             out.append(dict(name="%s/cycle/and" % nm, fn="cycle", form="array1d", n=n, edges=es, mode="and", primitive=False))
-            out.append(dict(name="%s/path/mixed" % nm, fn="path", form="array1d", n=n, edges=es, mode="vars", primitive=True))
+            out.append(dict(name="%s/path/array1d" % nm, fn="path", form="array1d", n=n, edges=es, mode="vars", primitive=True))
+        if 1 <= len(es) <= 6 and n <= 5:
+            # Python constants among the edge flags (a constant-True edge is an edge of the cycle / path)
+            for off in range(4 if len(es) >= 3 else 2):
+                for prim in (False, True):
+                    out.append(dict(name="%s/cycle/pr%d/mixed%d" % (nm, prim, off), fn="cycle", form="list", n=n, edges=es, mode="mixed%d" % off,
+                                    primitive=prim))
+                out.append(dict(name="%s/path/pr1/mixed%d" % (nm, off), fn="path", form="list", n=n, edges=es, mode="mixed%d" % off, primitive=True))
     frames = [(1, 1), (1, 2), (2, 1), (2, 2), (1, 3), (0, 1), (1, 0), (0, 0), (0, 2), (2, 3), (3, 2)]
     if tier == "thorough":
         frames += [(3, 3), (1, 5), (5, 1), (2, 4), (0, 3)]
